@@ -9,6 +9,7 @@ import (
 	"path/filepath"
 	"strings"
 	"sync"
+	"sync/atomic"
 	"time"
 
 	"github.com/xelaj/mtproto"
@@ -324,23 +325,24 @@ func c17e2e(c *wk.Ctx) {
 		idx++
 	}
 	// (b) PHONE_MIGRATE_X
-	for k := 0; k < c.Pick(6, 80); k++ {
+	for k := 0; k < c.Pick(16, 160); k++ {
 		if c.Mine(idx) {
 			r := c.Rand(idx)
 			configured := k%3 != 2
 			inflight := r.Intn(4)
-			c.Begin(idx, fmt.Sprintf("migrate configured=%v inflight=%d", configured, inflight))
-			c17migrate(c, idx, r, configured, inflight)
+			c.Begin(idx, fmt.Sprintf("migrate configured=%v inflight=%d variant=%d", configured, inflight, k))
+			c17migrate(c, idx, r, configured, inflight, k)
 		}
 		idx++
 	}
 }
 
-func c17migrate(c *wk.Ctx, idx int, r *rand.Rand, configured bool, inflight int) {
+func c17migrate(c *wk.Ctx, idx int, r *rand.Rand, configured bool, inflight int, variant int) {
 	dc := 2 + r.Intn(4)
 	migrateCode := []int32{303, 303, 400, 420, 500, 406}[r.Intn(6)]
-	var migrated sync.Map  // uid -> true once refused by dc1
-	var toMigrate sync.Map // uids dc1 refuses
+	var migrated sync.Map           // uid -> true once refused by dc1
+	var toMigrate sync.Map          // uids dc1 refuses
+	var toMigrateElsewhere sync.Map // uids dc1 redirects to a data centre that is not configured
 	var e *rpcEnv
 	var srv2 *refserver.Server
 	var err error
@@ -352,6 +354,11 @@ func c17migrate(c *wk.Ctx, idx int, r *rand.Rand, configured bool, inflight int)
 		holdMu.Unlock()
 		if h {
 			return false
+		}
+		if _, elsewhere := toMigrateElsewhere.Load(p.uid); elsewhere {
+			b := refserver.RPCResult(p.msgID, refserver.RPCError(migrateCode, "PHONE_MIGRATE_77"))
+			e.sendGroup(p.conn, [][]byte{b}, []uint64{p.uid}, false)
+			return true
 		}
 		if _, refuse := toMigrate.Load(p.uid); refuse {
 			// dc1 refuses: this account lives in another data centre
@@ -385,6 +392,43 @@ func c17migrate(c *wk.Ctx, idx int, r *rand.Rand, configured bool, inflight int)
 		}
 	}))
 	srv2.SetSalt(e.key, int64(r.Uint64()))
+	// a third data centre: for some requests the second one redirects once more, the third back, and so on for a
+	// number of hops before the answer comes (each redirect names a configured data centre)
+	hops := int32(0)
+	if configured && variant%4 == 1 {
+		hops = []int32{7, 3, 12, 25}[(variant/4)%4]
+	}
+	hopsLeft := hops
+	dc3 := dc%5 + 6
+	var srv3 *refserver.Server
+	redirect := func(self *refserver.Server, other int) refserver.Handler {
+		return refserver.HandlerFunc(func(cn *refserver.Conn, in *mtp.Inner) {
+			if uid, _, res, ok := answerFor(in.Body); ok {
+				key, _ := cn.KeySession()
+				sl, _ := self.Salt(key)
+				if in.Salt != sl {
+					cn.SendEncrypted(refserver.Out{MsgID: self.NextMsgID(3), SeqNo: cn.NextSeq(false), Body: refserver.BadServerSalt(in.MsgID, in.SeqNo, sl)}, sl, "bad_server_salt", nil)
+					return
+				}
+				if atomic.AddInt32(&hopsLeft, -1) >= 0 {
+					cn.SendEncrypted(refserver.Out{MsgID: self.NextMsgID(1), SeqNo: cn.NextSeq(true), Body: refserver.RPCResult(in.MsgID, refserver.RPCError(303, fmt.Sprintf("PHONE_MIGRATE_%d", other)))}, sl, "rpc_result", nil)
+					return
+				}
+				mu2.Lock()
+				arrived2[uid]++
+				mu2.Unlock()
+				cn.SendEncrypted(refserver.Out{MsgID: self.NextMsgID(1), SeqNo: cn.NextSeq(true), Body: refserver.RPCResult(in.MsgID, res)}, sl, "rpc_result", map[string]interface{}{"uid": fmt.Sprint(uid)})
+			}
+		})
+	}
+	if hops > 0 {
+		srv2.Handler = redirect(srv2, dc3)
+		srv3 = e.w.server(nil)
+		srv3.Handler = redirect(srv3, dc)
+		srv3.SetSalt(e.key, int64(r.Uint64()))
+		e.m.SetDCList(map[int]string{dc3: srv3.Addr})
+		c.Count(fmt.Sprintf("e2e.migrations.hops=%d", hops+1), 1)
+	}
 	if configured {
 		e.m.SetDCList(map[int]string{dc: srv2.Addr})
 	} else {
@@ -401,6 +445,24 @@ func c17migrate(c *wk.Ctx, idx int, r *rand.Rand, configured bool, inflight int)
 			c.Viol("C17", idx, "e2e/call-before-migration", fmt.Sprintf("%+v", rec), nil)
 			return
 		}
+	}
+	// history on one client: a redirect to a data centre nobody configured (an error, as stated) comes first
+	if configured && variant%4 == 3 {
+		uid0 := uidFor(r, "object", used)
+		toMigrateElsewhere.Store(uid0, true)
+		var rec0 callRec
+		if !withTimeout(30*time.Second, func() { rec0 = e.doCall(0, uid0, "object", false) }) {
+			if st, dump := isStalled(); st {
+				c.Viol("C17", idx, "e2e/migrate-stall/unconfigured-first", "the request redirected to an unconfigured data centre never returned", dump)
+			} else {
+				c.Log.Emit(coreInconclusive("c17e2e: unconfigured migration did not return"))
+			}
+			return
+		}
+		if rec0.Err == "" {
+			c.Viol("C17", idx, "e2e/migrate-unconfigured-not-error", fmt.Sprintf("PHONE_MIGRATE_77 with no such data centre configured: %+v", rec0), nil)
+		}
+		c.Count("e2e.migrations.unconfigured_then_configured", 1)
 	}
 	// the refused request is of any result kind: an object, a Bool, or a vector (decoded with the caller's hints)
 	migKind := rpcKinds[r.Intn(len(rpcKinds))]
